@@ -525,7 +525,12 @@ class SMHooks(NAHooks, OpHooks):
                     return (len(sp.parts),) + tuple(sub)
                 return (len(sp.parts),)
             if name == 'dtype':
-                return sp.parts[0].dt if sp.parts else None
+                dts = [self.space_attr(I, q, 'dtype') for q in sp.parts]
+                if not dts:
+                    return None
+                if all(d == dts[0] for d in dts):
+                    return dts[0]
+                raise PyRaise('AttributeError')
             return NotImplemented
         if name == 'shape':
             return sp.shape
@@ -776,6 +781,13 @@ class SMHooks(NAHooks, OpHooks):
 
     def on_subscript(self, interp, obj, idx):
         if isinstance(obj, NPElem):
+            if isinstance(idx, tuple) and idx and all(
+                    isinstance(i, int) for i in idx):
+                sub = self.on_subscript(interp, obj, idx[0])
+                if len(idx) == 1:
+                    return sub
+                return self.on_subscript(interp, sub, idx[1:] if len(idx) > 2
+                                         else idx[1])
             if isinstance(idx, int):
                 try:
                     return obj.parts[idx]
@@ -787,7 +799,21 @@ class SMHooks(NAHooks, OpHooks):
                 return NPElem(NPSpace(obj.space.parts[idx],
                                       obj.space.weights[idx]),
                               obj.parts[idx])
+            if isinstance(idx, (NElem, NPElem, NA)) or \
+                    type(idx).__name__ == 'BoolElem' or idx is None or \
+                    isinstance(idx, (str, float)):
+                # ProductSpaceElement.__getitem__ accepts integers,
+                # slices, lists and tuples only
+                raise PyRaise('TypeError')
             raise Undecided('product element index %r' % (idx,))
+        if isinstance(obj, (NPSpace, NPElem)) and isinstance(idx, tuple) \
+                and idx and all(isinstance(i, int) for i in idx):
+            # drilling down: self[i, j] = self[i][j]
+            sub = self.on_subscript(interp, obj, idx[0])
+            if len(idx) == 1:
+                return sub
+            return self.on_subscript(interp, sub, idx[1:] if len(idx) > 2
+                                     else idx[1])
         if isinstance(obj, NPSpace) and isinstance(idx, int):
             try:
                 return obj.parts[idx]
@@ -949,6 +975,14 @@ class SMInterp(NAMixin, Interp):
         return super(SMInterp, self).ev(n, scope, func)
 
     def call_inst(self, inst, args, kwargs):
+        if args and isinstance(args[0], NA) and self.model.is_subclass(
+                inst.ci, 'Operator'):
+            # Operator.__call__: an input that is not in the domain is
+            # converted with domain.element
+            dom = self.getattr_value(inst, 'domain')
+            if isinstance(dom, (NSpace, NPSpace)):
+                args = [self.hooks.element(self, dom, args[0])] + \
+                    list(args[1:])
         r = Interp.call_inst(self, inst, args, kwargs)
         if isinstance(r, (NA, list, tuple)) and 'out' not in kwargs and \
                 len(args) == 1 and self.model.is_subclass(inst.ci,
